@@ -113,4 +113,12 @@ META = {
         "technique": "Coq proof (induction over call sequences) + hook-traced correspondence with generated capacities",
         "design_ref": "DESIGN.md §3 C18",
     },
+    "C20": {
+        "text": "Coq theorems: the specification returns one entry per sample; lag 0 is exactly 1 for non-constant columns; the samples are the states after steps f, 2f, ... (floor(T/f) of them); and, over any field with a primitive T-th root of unity and for every length T, "
+                "the unnormalised inverse DFT of X_k * X_{-k} equals T times the circular autocorrelation (the algebraic identity behind the FFT route; mathcomp, axiom free). "
+                "The helpers (calculate_autocorrelation, variable / spin-product / bond variants, the rayon tempering variant) are run on a scripted stepper with known observable values and on real samplers, for even / odd / prime / power-of-two lengths and periods 1-3, and compared with the rational specification evaluated in Coq.",
+        "note": "Trusted: Coq kernel + vm_compute; rustfft (tolerance comparison 2^-30); the specification is the documented formula in exact rationals (the sqrt normalisation cancels).",
+        "technique": "Coq proof (stdlib Q for the specification, mathcomp big operators for the DFT identity) + specification-vs-implementation correspondence",
+        "design_ref": "DESIGN.md §3 C20",
+    },
 }
